@@ -91,9 +91,11 @@ partial def loop (h : IO.FS.Stream) (out : IO.FS.Stream) (m : Profile) : IO Unit
   | ["GENBLEND", mode, seed, lop, cop, w, hh, verbose] =>
       -- two-layer blend enumeration; pixel pairs depend on the seed only
       let (back, src) := Gen.run seed.toNat! (Gen.blendPixelsG (w.toNat! * hh.toNat!))
-      let p := Gen.blendProgram mode.toNat! lop.toNat! cop.toNat! w.toNat! hh.toNat! back src
+      -- verbose = "1": raw source cel with pixel dump; "t": source stored as a tilemap layer
+      let p := if verbose == "t" then Gen.blendProgramTiles mode.toNat! lop.toNat! cop.toNat! w.toNat! hh.toNat! back src
+               else Gen.blendProgram mode.toNat! lop.toNat! cop.toNat! w.toNat! hh.toNat! back src
       let bs := Spec.encode p
-      let id := s!"blend-{mode}-{seed}-{lop}-{cop}"
+      let id := if verbose == "t" then s!"blendtiles-{mode}-{seed}-{lop}-{cop}" else s!"blend-{mode}-{seed}-{lop}-{cop}"
       out.putStrLn s!"INPUT {id} {Obs.hex bs}"
       emitCase out (verbose == "1") m id bs
       if verbose == "1" then
